@@ -281,6 +281,13 @@ func (env *Env) eval(e *Expr) Val {
 			return v
 		}
 		if env.fr != nil {
+			isClosure := env.fr.parent != nil && env.fr.fn.Parent() == env.fr.parent.fn
+			if env.entryPar && isClosure {
+				// entry values of the enclosing function's parameters
+				if v, ok := env.fr.parent.params[e.Name]; ok {
+					return v
+				}
+			}
 			if env.entryPar {
 				if v, ok := env.fr.params[e.Name]; ok {
 					return v
@@ -539,7 +546,7 @@ func (env *Env) evalBin(e *Expr) Val {
 	case "<", "<=", ">", ">=":
 		return mkBool("(" + op + " " + oneTerm(a, e) + " " + oneTerm(b, e) + ")")
 	case "+", "-", "*":
-		if op == "+" && a.K == KStr && b.K == KStr {
+		if op == "+" && (a.K == KStr || b.K == KStr) {
 			return Val{K: KStr, T: "(gstr.cat " + a.T + " " + b.T + ")", Ty: a.Ty}
 		}
 		return mkInt("("+op+" "+oneTerm(a, e)+" "+oneTerm(b, e)+")", nil)
@@ -903,6 +910,17 @@ func (env *Env) evalCall(e *Expr) Val {
 			fail("%s: unknown type %s", e.Pos, tn)
 		}
 		return mkBool("(= " + x.Fs[0].T + " " + smtInt(int64(c.eng.typeID(t))) + ")")
+	case "as":
+		// as(I, x): the pointer x viewed as a value of interface type I (to reach ghost fields declared on I)
+		it := env.resolveType(e.Args[0].String())
+		if it == nil {
+			fail("%s: unknown interface type %s", e.Pos, e.Args[0].String())
+		}
+		x := env.eval(e.Args[1])
+		if x.K != KRef || x.Ty == nil {
+			fail("%s: as(): pointer value expected", e.Pos)
+		}
+		return Val{K: KIface, Ty: it, Fs: []Val{mkInt(smtInt(int64(c.eng.typeID(x.Ty))), nil), mkInt(x.T, nil)}}
 	case "iface":
 		// iface(T, x): the interface value holding x of dynamic type T
 		t := env.resolveType(e.Args[0].String())
